@@ -55,7 +55,7 @@ def scenarios(tier):
     for name, prog in wfgen.dataflow_shapes().items():
         keys = wfgen.action_keys(prog)
         assigns = [{k: ['S'] for k in keys}]
-        if 'on_error' in name or not quick:
+        if 'on_error' in name or 'clause_' in name or not quick:
             for k in keys:
                 assigns.append({x: ['E' if x == k else 'S'] for x in keys})
         for jinja in (False, True):
